@@ -91,6 +91,9 @@ fn minimise(sc: &Scenario, mode: Prop, class: &str) -> (Scenario, usize) {
 
 fn cmd_run(args: &[String]) -> i32 {
     let mode = parse_prop(arg(args, "--prop").unwrap_or("C10"));
+    // the generator stream may differ from the oracle in force (used by the driver to find out
+    // whether a crash seen by the C09 check is a C10 matter)
+    let gen_mode = arg(args, "--gen").map(parse_prop).unwrap_or(mode);
     let seed: u64 = arg(args, "--seed").unwrap_or("1").parse().expect("--seed");
     let start: u64 = arg(args, "--start").unwrap_or("0").parse().expect("--start");
     let count: u64 = arg(args, "--count").unwrap_or("1000").parse().expect("--count");
@@ -125,7 +128,7 @@ fn cmd_run(args: &[String]) -> i32 {
         }
         // which run is in flight, for the driver, should this process die
         guard::mark_run(index);
-        let sc = scenario_for(mode, seed, index);
+        let sc = scenario_for(gen_mode, seed, index);
         *kinds.entry(sc.kind.name()).or_insert(0) += 1;
         total_ops += sc.ops.len() as u64;
         let res = run_scenario(&sc, mode, false);
@@ -159,10 +162,24 @@ fn cmd_run(args: &[String]) -> i32 {
             *n += 1;
             if *n == 1 {
                 // minimise the first violation of each class, then confirm it replays
-                let (min_sc, evals) = minimise(&sc, mode, &v.class);
-                let r1 = run_scenario(&min_sc, mode, true);
-                let r2 = run_scenario(&min_sc, mode, true);
+                let (mut min_sc, evals) = minimise(&sc, mode, &v.class);
+                let mut r1 = run_scenario(&min_sc, mode, true);
+                let mut r2 = run_scenario(&min_sc, mode, true);
+                let stable = |r: &RunResult| r.violation.as_ref().map(|x| x.class == v.class).unwrap_or(false);
+                let mut minimisation_unstable = false;
+                if !stable(&r1) || !stable(&r2) {
+                    // the violation involves address-dependent garbage and does not survive shrinking
+                    // reliably: report the history as it was generated
+                    minimisation_unstable = true;
+                    min_sc = sc.clone();
+                    r1 = run_scenario(&min_sc, mode, true);
+                    r2 = run_scenario(&min_sc, mode, true);
+                    if r1.violation.is_none() {
+                        r1.violation = Some(v.clone());
+                    }
+                }
                 let mut rep = scenario_to_replay(&min_sc, mode, seed, index, &r1);
+                rep["minimisation_unstable"] = minimisation_unstable.into();
                 rep["minimised_from_ops"] = sc.ops.len().into();
                 rep["minimiser_evaluations"] = evals.into();
                 rep["replays_identically_in_process"] = (r1.log_hash == r2.log_hash && r1.violation.as_ref().map(|x| &x.class) == r2.violation.as_ref().map(|x| &x.class)).into();
